@@ -409,7 +409,7 @@ def e2e_job(job):
                     acc.fail(key, msg, c)
                 if len(acc.samples) < 1:
                     acc.sample(case)
-                if i % 2 == 1 or va == vb:
+                if i % 3 == 1:      # one of the three latency settings of every pair of variants
                     # several event loops in a row (asyncio.run per operation), keep-alive on / off, the objects taking turns in varying order
                     for keep in (True, False):
                         pc = {"e2e": True, "phases": ["AB", "BA", "AB", "BA"],
@@ -418,7 +418,7 @@ def e2e_job(job):
                                       "B": [["read_setting", "grid_export_limit"], ["runtime"], ["runtime"], ["read_setting", "grid_export_limit"]]}, "merge": []}
                         for key, msg, c in run_case_e2e(acc, pc):
                             acc.fail(key, msg, c)
-                if i % 2 == 0 or va == vb:
+                if i % 3 == 0:
                     # both inverters deliver their answers in two datagrams / segments; the calls of the two objects overlap
                     fc = {"e2e": True, "objects": {"A": dict(case["objects"]["A"], frag=[9, la, la + 4]), "B": dict(case["objects"]["B"], frag=[(9, 14, 30)[i % 3], lb, lb + 3])},
                           "seq": {"A": [["runtime"], ["read_setting", "grid_export_limit"], ["runtime"]], "B": [["runtime"], ["read_setting", "grid_export_limit"], ["runtime"]]}, "merge": []}
